@@ -112,6 +112,36 @@ func (h *hctx) report(r *runner, im *Image, f Fault, mode string, start *Snap, m
 			}
 		}
 	}
+	if f.Kind == "bitflip" && strings.HasPrefix(f.What, "len") {
+		// a length that grows by a few bytes can pull bytes of the next frame into
+		// the record; protobuf's last-value-wins then re-types it, the checksum
+		// (payload only) still matches
+		if fl := im.file(f.File); fl != nil {
+			if fi, err := f.apply(im, im.PrevDur); err == nil {
+				base := f.Off &^ 7
+				var ot, nt int64 = -1, -1
+				for _, fr := range parseFrames(fl.Data, fl.Size) {
+					if fr.Off == base {
+						ot = fr.Type
+					}
+				}
+				ff := fi.file(f.File)
+				for _, fr := range parseFrames(ff.Data, ff.Size) {
+					if fr.Off == base {
+						nt = fr.Type
+					}
+				}
+				if ot > 0 && nt >= 0 && ot != nt {
+					to, ok := recTypeName[nt]
+					if !ok {
+						to = fmt.Sprintf("type%d", nt)
+					}
+					sig = "record-retyped-by-length-flip/" + recTypeName[ot] + "->" + to
+					v.Msg = "[" + v.Sig + "] " + v.Msg
+				}
+			}
+		}
+	}
 	scen := "history"
 	if h.scenario != "" {
 		scen = h.scenario
@@ -465,7 +495,7 @@ func (h *hctx) planTears(rg region, mode string) tearPlan {
 			n = 4
 		}
 		for _, m := range nonPrefixMasks(n) {
-			tp.faults = append(tp.faults, Fault{Kind: "sector-subset", File: rg.File, Off: s * sector, N: n, Mask: m, Drop: rg.Drop, Size: rg.Size})
+			tp.faults = append(tp.faults, Fault{Kind: "sector-subset", File: rg.File, Off: s * sector, N: n, Mask: m, Drop: rg.Drop, Size: rg.Size, Lo: lo})
 		}
 	}
 	return tp
